@@ -104,6 +104,29 @@ def table_check() -> dict:
                 bad.append(f'{code} street {k}: bet {s.min_completion_betting_or_raising_amount} documented {exp_bet}')
             if s.max_completion_betting_or_raising_count != d['cap']:
                 bad.append(f'{code} street {k}: cap {s.max_completion_betting_or_raising_count} documented {d["cap"]}')
+        # create_state hands every documented parameter through
+        marker_divmod = lambda a, b: divmod(a, b)  # noqa: E731
+        marker_rake = lambda amount, state=None: (0, amount)  # noqa: E731
+        from pokerkit.state import Automation, Mode
+        st2 = C.make_state(code, dict(cfg, mode=Mode.CASH_GAME, starting_board_count=2, divmod=marker_divmod,
+                                      rake=marker_rake, automations=(Automation.ANTE_POSTING,),
+                                      ante_trimming_status=False))
+        n += 1
+        if st2.mode != Mode.CASH_GAME:
+            bad.append(f'{code}: create_state drops mode')
+        if st2.starting_board_count != 2 or st2.board_count != 2:
+            bad.append(f'{code}: create_state drops starting_board_count ({st2.starting_board_count})')
+        if st2.divmod is not marker_divmod or st2.rake is not marker_rake:
+            bad.append(f'{code}: create_state drops divmod/rake')
+        if tuple(st2.automations) != (Automation.ANTE_POSTING,) or st2.ante_trimming_status is not False:
+            bad.append(f'{code}: create_state drops automations/ante_trimming_status')
+        if tuple(st2.starting_stacks) != (200, 200, 200) or tuple(st2.antes) != (1, 1, 1):
+            bad.append(f'{code}: create_state changes stacks/antes')
+        if C.is_stud(code):
+            if st2.bring_in != 1 or any(st2.blinds_or_straddles):
+                bad.append(f'{code}: bring-in/blinds {st2.bring_in} {st2.blinds_or_straddles}')
+        elif tuple(st2.blinds_or_straddles) != (1, 2, 0) or st2.bring_in != 0:
+            bad.append(f'{code}: blinds/bring-in {st2.blinds_or_straddles} {st2.bring_in}')
         phh = d.get('phh', code)
         if code != 'NR':
             if HandHistory.game_types.get(phh) is not cls:
